@@ -310,18 +310,21 @@ Record conn := mkC {
   c_qdec : option Z;                     (* _peer_decoder_stream_id *)
   c_qenc : option Z;                     (* _peer_encoder_stream_id *)
   c_maxpush : option Z;                  (* _max_push_id *)
-  c_streams : list hstream               (* _stream, insertion order *)
+  c_streams : list hstream;              (* _stream, insertion order *)
+  c_sent_end : list Z                    (* stream ids whose H3Stream.sending_ended is set (local send_headers /
+                                            send_data with end_stream=True); kept here, not in hstream *)
 }.
 Definition conn_init (client dgram : bool) : conn :=
-  mkC client dgram false None None None None (if client then Some 8 else None) [].
+  mkC client dgram false None None None None (if client then Some 8 else None) [] [].
 
-Definition set_done c x := mkC (c_client c) (c_dgram c) x (c_settings c) (c_ctrl c) (c_qdec c) (c_qenc c) (c_maxpush c) (c_streams c).
-Definition set_settings c x := mkC (c_client c) (c_dgram c) (c_done c) x (c_ctrl c) (c_qdec c) (c_qenc c) (c_maxpush c) (c_streams c).
-Definition set_ctrl c x := mkC (c_client c) (c_dgram c) (c_done c) (c_settings c) x (c_qdec c) (c_qenc c) (c_maxpush c) (c_streams c).
-Definition set_qdec c x := mkC (c_client c) (c_dgram c) (c_done c) (c_settings c) (c_ctrl c) x (c_qenc c) (c_maxpush c) (c_streams c).
-Definition set_qenc c x := mkC (c_client c) (c_dgram c) (c_done c) (c_settings c) (c_ctrl c) (c_qdec c) x (c_maxpush c) (c_streams c).
-Definition set_maxpush c x := mkC (c_client c) (c_dgram c) (c_done c) (c_settings c) (c_ctrl c) (c_qdec c) (c_qenc c) x (c_streams c).
-Definition set_streams c x := mkC (c_client c) (c_dgram c) (c_done c) (c_settings c) (c_ctrl c) (c_qdec c) (c_qenc c) (c_maxpush c) x.
+Definition set_done c x := mkC (c_client c) (c_dgram c) x (c_settings c) (c_ctrl c) (c_qdec c) (c_qenc c) (c_maxpush c) (c_streams c) (c_sent_end c).
+Definition set_settings c x := mkC (c_client c) (c_dgram c) (c_done c) x (c_ctrl c) (c_qdec c) (c_qenc c) (c_maxpush c) (c_streams c) (c_sent_end c).
+Definition set_ctrl c x := mkC (c_client c) (c_dgram c) (c_done c) (c_settings c) x (c_qdec c) (c_qenc c) (c_maxpush c) (c_streams c) (c_sent_end c).
+Definition set_qdec c x := mkC (c_client c) (c_dgram c) (c_done c) (c_settings c) (c_ctrl c) x (c_qenc c) (c_maxpush c) (c_streams c) (c_sent_end c).
+Definition set_qenc c x := mkC (c_client c) (c_dgram c) (c_done c) (c_settings c) (c_ctrl c) (c_qdec c) x (c_maxpush c) (c_streams c) (c_sent_end c).
+Definition set_maxpush c x := mkC (c_client c) (c_dgram c) (c_done c) (c_settings c) (c_ctrl c) (c_qdec c) (c_qenc c) x (c_streams c) (c_sent_end c).
+Definition set_streams c x := mkC (c_client c) (c_dgram c) (c_done c) (c_settings c) (c_ctrl c) (c_qdec c) (c_qenc c) (c_maxpush c) x (c_sent_end c).
+Definition set_sent_end c x := mkC (c_client c) (c_dgram c) (c_done c) (c_settings c) (c_ctrl c) (c_qdec c) (c_qenc c) (c_maxpush c) (c_streams c) x.
 
 Fixpoint find_stream (sid : Z) (l : list hstream) : option hstream :=
   match l with
@@ -536,8 +539,8 @@ Definition get_or_create (c : conn) (sid : Z) : hstream * conn :=
 
 Definition uni_fuel (b : list Z) : nat := S (S (S (length b))).
 
-(* _receive_stream_data *)
-Definition receive_stream_data (fx : fixes) (O : oracle) (c0 : conn) (sid : Z) (data : list Z) (fin : bool)
+(* _receive_stream_data, without the exit of the _get_or_create_stream context manager *)
+Definition receive_stream_data0 (fx : fixes) (O : oracle) (c0 : conn) (sid : Z) (data : list Z) (fin : bool)
   : rsd :=
   let '(s0, c) := get_or_create c0 sid in
   if is_uni sid then
@@ -564,6 +567,36 @@ Definition receive_stream_data (fx : fixes) (O : oracle) (c0 : conn) (sid : Z) (
     | RExn k => SExn k
     end.
 
+(* H3Stream.is_ended and the exit of the _get_or_create_stream context manager:
+   "if stream.is_ended(): self._stream.pop(stream_id)" (runs in a finally clause, also when a ProtocolError is raised) *)
+Fixpoint memz (x : Z) (l : list Z) : bool :=
+  match l with [] => false | y :: t => (x =? y) || memz x t end.
+Definition is_ended (c : conn) (s : hstream) : bool :=
+  memz (s_id s) (c_sent_end c) && s_ended s && negb (s_blocked s).
+Fixpoint remove_stream (sid : Z) (l : list hstream) : list hstream :=
+  match l with
+  | [] => []
+  | s :: t => if s_id s =? sid then t else s :: remove_stream sid t
+  end.
+Definition pop_if_ended (c : conn) (sid : Z) : conn :=
+  match find_stream sid (c_streams c) with
+  | Some s => if is_ended c s then set_streams c (remove_stream sid (c_streams c)) else c
+  | None => c
+  end.
+
+Definition receive_stream_data (fx : fixes) (O : oracle) (c0 : conn) (sid : Z) (data : list Z) (fin : bool) : rsd :=
+  match receive_stream_data0 fx O c0 sid data fin with
+  | SVal evs c => SVal evs (pop_if_ended c sid)
+  | SErr k c => SErr k (pop_if_ended c sid)
+  | SExn k => SExn k
+  end.
+
+(* the local application ends its sending side: send_headers / send_data (..., end_stream=True) *)
+Definition local_end (c0 : conn) (sid : Z) : conn :=
+  let '(_, c) := get_or_create c0 sid in
+  let c := if memz sid (c_sent_end c) then c else set_sent_end c (sid :: c_sent_end c) in
+  pop_if_ended c sid.
+
 Definition receive_datagram (d : list Z) : out (list event) :=
   match pull_uint_var d with
   | None => PErr H3_DATAGRAM_ERROR
@@ -573,7 +606,8 @@ Definition receive_datagram (d : list Z) : out (list event) :=
 Inductive qevent :=
 | QStream (sid : Z) (data : list Z) (fin : bool)
 | QDatagram (data : list Z)
-| QOther.
+| QOther
+| QLocalEnd (sid : Z).        (* not a transport event: the application finished sending on the stream *)
 
 (* what one handle_event call shows: the returned events, or the close code, or the escaping exception *)
 Inductive hout :=
@@ -582,8 +616,10 @@ Inductive hout :=
 | Raised (k : Z).
 
 Definition handle_event (fx : fixes) (O : oracle) (c : conn) (ev : qevent) : hout * conn :=
+  match ev with QLocalEnd sid => (Events [], local_end c sid) | _ =>
   if c_done c then (Events [], c) else
   match ev with
+  | QLocalEnd _ => (Events [], c)
   | QStream sid data fin =>
       match receive_stream_data fx O c sid data fin with
       | SVal evs c' => (Events evs, c')
@@ -597,7 +633,7 @@ Definition handle_event (fx : fixes) (O : oracle) (c : conn) (ev : qevent) : hou
       | Exn k => (Raised k, c)
       end
   | QOther => (Events [], c)
-  end.
+  end end.
 
 (* run a whole trace; stops at the first escaping exception *)
 Fixpoint run (fx : fixes) (c : conn) (tr : list (qevent * oracle)) : list hout :=
@@ -616,6 +652,7 @@ Fixpoint run (fx : fixes) (c : conn) (tr : list (qevent * oracle)) : list hout :
      0 sid fin <bytes> <oracle tables>     StreamDataReceived
      1 <bytes>                             DatagramFrameReceived
      2                                     any other event
+     3 sid                                 the local application ends its sending side of stream sid
    <bytes> = n b1..bn
    <oracle tables> =
      ndec  (sid <bytes> kind hid)*         kind 0 headers / 1 blocked / 2 failed
@@ -722,6 +759,9 @@ Fixpoint exec_h3_ops (fuel : nat) (fx : fixes) (c : conn) (t : list Z) : list Z 
       out_hout o ++ obs_conn c' ++ exec_h3_ops fuel fx c' t
   | 2 :: t =>
       out_hout (Events []) ++ obs_conn c ++ exec_h3_ops fuel fx c t
+  | 3 :: sid :: t =>
+      let c' := local_end c sid in
+      out_hout (Events []) ++ obs_conn c' ++ exec_h3_ops fuel fx c' t
   | _ => []
   end end.
 
